@@ -175,7 +175,7 @@ def eval_spec(spec):
         viol(f"C11/pgdb/{cls}/not-a-descent-direction",
              f"{fam}: iteration {worst[1] + 1}: <y, grad f> = {worst[2]:.3e} > -mu |y|^2 = {worst[3]:.3e} (|y| = {worst[4]:.2e})")
     # --- the estimate does not depend on whether the history is recorded
-    if spec["salt"] % 3 == 0:
+    if spec["salt"] % 3 == 0 and res.k <= 150:
         r0 = L.run_lme(qt, empi, fam, "pgdb", history=False, **opt)[0]
         if not np.array_equal(np.array(r0.estimated_var, dtype=float), xhat):
             viol(f"C11/pgdb/{kind}/history-flag-changes-estimate",
